@@ -74,7 +74,11 @@ static void cmp(struct S_struct_2etokres* a, struct S_struct_2etokres* b) {
 #define SPL(i) else if (IN_k == i) { run(s, i, &B); cmp(&A, &B); }
 HARNESS(h_split) {
   u8* s = mkin(); HAVOC(IN_opts); ASSUME((IN_opts & ~6u) == 0);
-  HAVOC(IN_k); ASSUME(IN_k < TOT);
+  HAVOC(IN_k);
+#ifdef KSPLIT
+  IN_k = KSPLIT;   /* split position concrete per job */
+#endif
+  ASSUME(IN_k < TOT);
   struct S_struct_2etokres A, B;
   run(s, TOT, &A);
   if (0) {} SPL(0) SPL(1) SPL(2) SPL(3) SPL(4) SPL(5) SPL(6) SPL(7) SPL(8) SPL(9) SPL(10) SPL(11) SPL(12) SPL(13) SPL(14) SPL(15) SPL(16)
